@@ -346,11 +346,13 @@ def fold_qset_blackbox(m: Model, deep=False):
     U = ('a', 'b', 'c', 'd') if deep else ('a', 'b', 'c')
     states = list(small_states(U, 3, deep))
     res = step_check(make, U, states, lambda n: operations(n, U), 'qset', has_sort=True)
+    res += long_reads(make, 'qset')
     return res, sorted(consulted)
 
 
 # ---- linqset -----------------------------------------------------------------------------------
-def fold_linqset_blackbox(m: Model, deep=False):
+def build_linqset(m: Model):
+    "-> (make(seq), consulted): tools/linked.linqset rebuilt as an MRO-bound class"
     consulted = set()
     it = base_interp(m, 'tools/linked.py linqset', [TOOLS, LNK])
     # LinkRel mirror read from the enum body
@@ -397,6 +399,17 @@ def fold_linqset_blackbox(m: Model, deep=False):
         for v in seq:
             c.append(v)
         return c
+    return make, consulted
+
+
+def fold_linqset_reads(m: Model):
+    "positional reads of linqset on containers of 5-7 members (what Tableau.open is): index, negative index, index(), after removals"
+    make, consulted = build_linqset(m)
+    return long_reads(make, 'linqset'), sorted(consulted)
+
+
+def fold_linqset_blackbox(m: Model, deep=False):
+    make, consulted = build_linqset(m)
     U = ('a', 'b', 'c', 'd') if deep else ('a', 'b', 'c')
     states = list(small_states(U, 3, deep))
 
@@ -404,7 +417,39 @@ def fold_linqset_blackbox(m: Model, deep=False):
         extra = [('wedge', (v, nb, r)) for v in U for nb in U for r in (-1, 1)]
         yield from operations(n, U, extra)
     res = step_check(make, U, states, ops, 'linqset')
+    res += long_reads(make, 'linqset')
     return res, sorted(consulted)
+
+
+def long_reads(make, label, sizes=(5, 6, 7)):
+    """Positional reads on containers longer than the step states (index scans from either end meet in the middle only there):
+    every index, negative index, index() of every member and a few removals agree with the list model."""
+    out = []
+    for n in sizes:
+        seq = list(range(10, 10 + n))
+        for removed in (None, seq[n // 2], seq[-2]):
+            want = [v for v in seq if v != removed]
+            case = f'{label}({seq})' + (f' after remove({removed})' if removed is not None else '')
+            try:
+                c = make(seq)
+                if removed is not None:
+                    c.remove(removed)
+                got_pos = [c[i] for i in range(len(want))]
+                got_neg = [c[-i - 1] for i in range(len(want))]
+                got_idx = [c.index(v) for v in want] if hasattr(c, 'index') else list(range(len(want)))
+                probs = []
+                if list(iter(c)) != want:
+                    probs.append(f'[order] iteration {list(iter(c))}, model {want}')
+                if got_pos != want:
+                    probs.append(f'[indexing] c[0..{len(want) - 1}] yields {got_pos}, model {want}')
+                if got_neg != want[::-1]:
+                    probs.append(f'[indexing] negative indexes yield {got_neg}, model {want[::-1]}')
+                if got_idx != list(range(len(want))):
+                    probs.append(f'[lookup] index() of the members yields {got_idx}')
+            except EXC as e:
+                probs = [f'[raises] {type(e).__name__}: {e}']
+            out.append((not probs, 'getitem', case, '; '.join(probs) or 'ok'))
+    return out
 
 
 # ---- Predicates store --------------------------------------------------------------------------
